@@ -23,44 +23,20 @@ pub struct Case {
 
 pub const SVG_NS: &str = "http://www.w3.org/2000/svg";
 
-/// rough tag count: does the text open element `name` more often than it closes it?
+/// Does the input, read the way svgdx reads it (quick-xml, lenient), open element `name` more often than it closes it?
+/// (Used only to recognise the listed finding KF-C02-1; the well-formedness oracle is `sxml`.)
 fn opens_more_than_closes(text: &str, name: &str) -> bool {
-    let delim = |c: Option<char>| matches!(c, None | Some(' ' | '\t' | '\n' | '\r' | '>' | '/'));
+    use quick_xml::events::Event;
+    let mut reader = quick_xml::Reader::from_str(text);
+    reader.config_mut().check_comments = true;
     let (mut opens, mut closes) = (0i64, 0i64);
-    let open_pat = format!("<{name}");
-    let close_pat = format!("</{name}");
-    let mut rest = text;
-    while let Some(i) = rest.find(&open_pat) {
-        let after = &rest[i + open_pat.len()..];
-        if delim(after.chars().next()) {
-            // self-closing tags balance themselves
-            // end of the tag: the first '>' outside a quoted attribute value
-            let mut quote: Option<char> = None;
-            let mut tag_end = after.len();
-            for (k, ch) in after.char_indices() {
-                match (quote, ch) {
-                    (None, '"' | '\'') => quote = Some(ch),
-                    (Some(q), c) if c == q => quote = None,
-                    (None, '>') => {
-                        tag_end = k;
-                        break;
-                    }
-                    _ => {}
-                }
-            }
-            if !after[..tag_end].ends_with('/') {
-                opens += 1;
-            }
+    loop {
+        match reader.read_event() {
+            Ok(Event::Start(e)) if e.name().as_ref() == name.as_bytes() => opens += 1,
+            Ok(Event::End(e)) if e.name().as_ref() == name.as_bytes() => closes += 1,
+            Ok(Event::Eof) | Err(_) => break,
+            _ => {}
         }
-        rest = after;
-    }
-    let mut rest = text;
-    while let Some(i) = rest.find(&close_pat) {
-        let after = &rest[i + close_pat.len()..];
-        if delim(after.chars().next()) {
-            closes += 1;
-        }
-        rest = after;
     }
     opens > closes
 }
